@@ -780,20 +780,21 @@ func (fv *FuncVerifier) invEnv(st *State, li *loopInfo) *Env {
 		}
 	}
 	for name, allocs := range fv.nameCells {
+		// the variable in scope at the loop header: the most recently allocated live cell of
+		// that name which is not declared inside the loop body
 		var pick *ssa.Alloc
 		for _, a := range allocs {
 			if _, live := st.cells[a]; !live {
 				continue
 			}
-			if pick == nil {
-				pick = a
+			if li.body[a.Block()] {
 				continue
 			}
-			// prefer the latest declaration before the loop header
-			if hpos.IsValid() && a.Pos() <= hpos && a.Pos() > pick.Pos() {
+			if pick == nil || st.allocSeq[a] > st.allocSeq[pick] {
 				pick = a
 			}
 		}
+		_ = hpos
 		if pick != nil {
 			vars[name] = st.cells[pick]
 		}
